@@ -1,0 +1,13 @@
+//go:build verif
+
+package build
+
+import "github.com/thought-machine/please/src/core"
+
+// Verification hook for property C08 (rule hash). Add-only; compiled only with -tags verif.
+
+// VerifC08RuleHash is the unexported ruleHash: the hash of the target's attributes as they are now, computed without
+// consulting or updating the memo that the exported RuleHash keeps in target.RuleHash.
+func VerifC08RuleHash(state *core.BuildState, target *core.BuildTarget, runtime bool) []byte {
+	return ruleHash(state, target, runtime)
+}
